@@ -275,11 +275,18 @@ func (r *Run) Shard(i int) bool {
 	return i%r.NWorkers == r.Worker
 }
 
+// PartsDir is the directory the workers of THIS coordinator process write their partial results to. It is private
+// to the process, so that two runs of the same check (e.g. a trial on a private copy next to a thorough run) never
+// read each other's parts.
+func (r *Run) PartsDir() string {
+	return filepath.Join(VerifDir, ".build", "parts", fmt.Sprintf("%s-%d", r.Prop, os.Getpid()))
+}
+
 // SpawnWorkers re-executes this binary n times with -worker i and merges the partials.
 // env entries are added to each worker's environment (e.g. GOMAXPROCS=1).
 // A worker that dies abnormally is reported through the returned list.
 func (r *Run) SpawnWorkers(n int, env []string, extraArgs ...string) (crashed []string) {
-	dir := filepath.Join(VerifDir, ".build", "parts", r.Prop)
+	dir := r.PartsDir()
 	_ = os.MkdirAll(dir, 0o755)
 	var wg sync.WaitGroup
 	var mu sync.Mutex
@@ -401,6 +408,9 @@ func sigFile(sig string) string {
 
 // Finish writes the evidence file, prints KNOWN-FINDING / VIOLATION lines and exits.
 func (r *Run) Finish(ev Evidence) {
+	if r.Worker < 0 {
+		_ = os.RemoveAll(r.PartsDir())
+	}
 	if r.IsWorker() {
 		r.FinishWorker()
 	}
